@@ -324,8 +324,12 @@ pub fn gen_fix_program(rng: &mut Rng) -> (String, String) {
         1 => ("no-node-globals", "const e = Buffer.from(\"x\"); f(Buffer);".to_string(), "Buffer"),
         _ => ("no-node-globals", "setImmediate(() => {}); clearImmediate(1);".to_string(), "setImmediate"),
       };
-      let src = match rng.below(14) {
+      let src = match rng.below(17) {
         0 => use_,
+        // only white space follows the last import on its line, and it is not one byte wide
+        14 => format!("import a from \"b\";\u{a0}\n{}", use_),
+        15 => format!("import a from \"b\"\u{3000}\u{a0}\n{}", use_),
+        16 => format!("import a from \"b\";\u{2003}\r\n{}", use_),
         // the character right after the last import is not one byte long
         11 => format!("import a from \"b\";\u{3000}{}", use_),
         12 => format!("import a from \"b\";\u{a0}// c\n{}", use_),
@@ -417,6 +421,15 @@ pub fn run(args: &Args) {
       let e = if sn.rule.starts_with("jsx") || sn.src.contains("</") || sn.src.contains("/>") { "tsx" } else { "ts" };
       if let Some(m) = exotic_whitespace(&mut frng, &sn.src, e, true, Some((i + args.seed as usize) % 3)) {
         forced.push((sn.rule.clone(), m));
+      }
+    }
+    // …and what follows the last import on its line, for the import-adding fixes: nothing, white space of one, two or
+    // three bytes, a comment, a statement (seed C03-7, rebased: the insertion point computed one *byte* behind the import)
+    for (rule, use_) in [("no-process-global", "const e = process.env;"), ("no-node-globals", "const e = Buffer.from(\"x\");"), ("no-node-globals", "setImmediate(() => {});")] {
+      for tail in ["", ";", "; ", ";\u{a0}", "\u{3000}", ";\u{2003}\u{a0} ", "; // c", ";\u{a0}// c", "; f();", ";\u{3000}f();", "\u{2028}"] {
+        for nl in ["\n", "\r\n"] {
+          forced.push((rule.to_string(), format!("import a from \"b\"{}{}{}", tail, nl, use_)));
+        }
       }
     }
     out.add("forced-gap-mutated-fix-snippets", forced.len() as u64);
